@@ -134,8 +134,11 @@ impl FixtureDatabase {
 
             let path = entry.path();
 
-            // Skip files in filtered directories (shouldn't happen with filter_entry, but just in case)
-            if path.components().any(|c| {
+            // Skip files in filtered directories (shouldn't happen with filter_entry, but just in case).
+            // Only components below the workspace root count: a project that itself lives
+            // under a directory called `build`, `env`, `node_modules`, ... must still be scanned.
+            let below_root = path.strip_prefix(root_path).unwrap_or(path);
+            if below_root.components().any(|c| {
                 c.as_os_str()
                     .to_str()
                     .is_some_and(Self::should_skip_directory)
